@@ -340,6 +340,54 @@ def execute_e2e(case, t):
         t.mark_nontrivial(ce.brief_result(tr))
 
 
+def execute_e2e_multiworker(case, t):
+    """The same partition / no-mutation check on a run with the library's own multi-worker pool, with per-task delays that
+    make later clusters' tasks finish first."""
+    import os
+    from harness import faults
+    from props.C20 import plain_run, _reap, clean_reference
+    cfg = {k: v for k, v in case.items() if k not in ("workers", "delays_ms")}
+    ref = clean_reference(cfg)
+    if ref is None:
+        t.discard("run does not complete")
+    K = cfg["K"]
+    delays = [(ref["S"][r][k], case["delays_ms"][k % 4] / 1000.0) for r in range(ref["rounds"]) for k in range(K)]
+    with faults.Installed(faults.delaying_admm):
+        faults.arm_delays(delays)
+        tr, left, to = plain_run(dict(cfg, num_processors=case["workers"]), case["workers"], max(120.0, 200 * ref["wall"]), t)
+    _reap(left)
+    if to or not tr.ok:
+        t.discard("multi-worker run did not complete (C14/C20 decide that)")
+    T = len(tr.begin["stacked"])
+    for r, q in enumerate(tr.rounds):
+        for name, ph in q["phases"].items():
+            check_partition_snap(ph["after"], K, T, f"round {r}: output of {name} ({case['workers']} workers, delays {case['delays_ms'][:K]} ms)")
+    check_partition_snap(tr.end["model"], K, T, "final state")
+    late = e2e.late_mutations(tr)
+    if late:
+        raise Violation("a phase altered a state it had been given: " + "; ".join(late[:3]))
+    t.cls(f"workers_{case['workers']}")
+    t.mark_nontrivial(ce.brief_result(tr))
+
+
+@st.composite
+def multiworker_case(draw):
+    cfg = draw(gen.e2e_config(front=("single", "joint"), max_N=2, max_W=2, max_K=4, t_range=(30, 60), limits=(2, 3), lam_forms=("scalar",),
+                              beta_forms=("scalar",), betas=(0.5, 2.0, 10.0)))
+    cfg["workers"] = draw(st.integers(2, 4))
+    cfg["delays_ms"] = [draw(st.sampled_from([0, 10, 25, 40])) for _ in range(4)]
+    cfg["reuse_buffers"] = False
+    cfg["prior_calls_on_same_arrays"] = False
+    return cfg
+
+
+def _pinned_long():
+    # many rows x several clusters: index arithmetic in narrow integer types (uint16 labels of the interpreted kernel) shows here
+    return [{"front": "single", "N": 1, "W": 1, "K": 5, "lengths": [14000], "regimes": 5, "mean_spread": 4.0, "data_seed": 21, "np_seed": 21,
+             "py_seed": 21, "beta": 1.0, "beta_form": "scalar", "lam": 0.11, "lam_form": "scalar", "limit": 2, "m": 5, "biased": False,
+             "eps": 0, "num_processors": 1, "boundary_regime_flip": False, "short_segments": True, "outliers": 0}]
+
+
 def _pinned_traces():
     base = {"op": "start", "K": 3, "N": 1, "W": 2, "T": 20, "seed": 4, "lam_matrix": True, "beta_vector": True, "biased": False, "m": 2}
     return [{"trace": [base, {"op": "deep_copy", "i": 0}, {"op": "mutate", "i": 1}]},
@@ -350,6 +398,11 @@ def _pinned_traces():
 SUBCHECKS = [
     SubCheck(name="state_operation_histories", strategy=machine_factory, execute=execute_trace, stateful=True, pinned=_pinned_traces,
              budget={"quick": 160, "thorough": 6000}, shards={"quick": 16, "thorough": 16}, modes=["nojit"]),
+    SubCheck(name="phase_boundaries_multiworker_permuted_completion", strategy=multiworker_case, execute=execute_e2e_multiworker,
+             budget={"quick": 32, "thorough": 1200}, shards={"quick": 8, "thorough": 16}, modes={"quick": ["nojit"], "thorough": ["nojit", "jit"]},
+             shrink={"quick": False, "thorough": False}),
+    SubCheck(name="phase_boundaries_very_long_run", enumerate=lambda tier: _pinned_long(), execute=execute_e2e,
+             budget={"quick": 1, "thorough": 1}, shards={"quick": 1, "thorough": 1}, modes={"quick": ["nojit"], "thorough": ["nojit", "jit"]}),
     SubCheck(name="phase_boundaries_of_traced_runs", strategy=lambda: gen.e2e_config(betas=(0.0, 0.5, 2.0, 10.0, 50.0, 400.0)),
              execute=execute_e2e, budget={"quick": 128, "thorough": 3000}, shards={"quick": 16, "thorough": 8}, modes=E2E_MODES,
              min_nontrivial_fraction=0.3),
